@@ -16,6 +16,7 @@
 # Also: the encoder steps of afkak (_encode_message_set, create_gzip_message) against Model.MsgSet through the runner
 # `codec` (they are what the theorems C05_afkak_* / C05_producer_* speak about), and the compression round-trip law
 # (the hypothesis of the message-set theorems) observed on the real afkak.codec.gzip_encode / gzip_decode.
+import os
 import random
 
 import vlib
@@ -679,7 +680,44 @@ def mutations(rnd, data, n):
     return out
 
 
-# ------------------------------------------------------------------ the check
+# ------------------------------------------------------------------ tie (A): the decoders translated from the source
+DECODER_API = {"get_response_correlation_id": "corr", "decode_api_versions_response": "apiversions",
+               "decode_produce_response__v0": "produce", "decode_produce_response__v2": "produce", "decode_produce_response__dispatch": "produce",
+               "decode_fetch_response": "fetch", "decode_offset_response": "offsets", "decode_metadata_response": "metadata",
+               "decode_consumermetadata_response": "coordinator", "decode_offset_commit_response": "commit",
+               "decode_offset_fetch_response": "ofetch", "decode_join_group_protocol_metadata": "subscription",
+               "decode_join_group_response": "join", "decode_leave_group_response": "leave", "decode_heartbeat_response": "heartbeat",
+               "decode_sync_group_response": "sync", "decode_sync_group_member_assignment": "assignment"}
+
+
+def translator_tie(ck):
+    """Two-ties rule (DESIGN.md 10.2b).  Tie (A): harness/py2dsl.py translates the source of every response decoder of
+    THIS run into a term of the decoder language Model/DecDSL.v; for the decoders that have a soundness theorem
+    (Proofs/DecDSLSound.v: interpreting the term = the hand-written model) the theorem is re-checked against the run's own
+    translation in a scratch directory.  A decoder the translator refuses, or whose translation is no longer the term the
+    theorem was proved for, has tie (A) DOWN: recorded, never a violation by itself - tie (B), the correspondence, then
+    carries that decoder alone on an enlarged sample.  Returns the set of api labels whose tie (A) is down."""
+    import decdsl_tie
+    r = decdsl_tie.tie(vlib.REPO)
+    ck.cov["translator_tie"] = {"per_decoder": r["decoders"], "scratch_dir": os.path.relpath(r["dir"], vlib.ROOT) if r["dir"] else None,
+                                "log": r["log"][-1500:]}
+    ck.cov["obligations"] += r["obligations"]
+    ck.cov["discharged"] += r["discharged"]
+    ck.cov["theorems"] += r["theorems"]
+    if r["cmd"]:
+        ck.cov["checker_cmd"] += " ; " + r["cmd"]
+    ck.cov["trusted_base"].append("translator harness/py2dsl.py (syntactic map Python ast -> Model.DecDSL.stmt; the meaning of the statement forms is "
+                                  "the Gallina interpreter DecDSL.exec) for the decoders listed intact under translator_tie")
+    intact = sorted(k for k, v in r["decoders"].items() if v == "intact")
+    down = sorted(k for k, v in r["decoders"].items() if v != "intact" and not v.startswith("same term"))
+    ck.cov["translator_tie"]["intact"] = intact
+    ck.cov["translator_tie"]["not_yet_covered"] = sorted(k for k, v in r["decoders"].items() if v.startswith("same term"))
+    ck.cov["translator_tie"]["down"] = down
+    for k in intact:
+        ck.hist("translator_tie_intact")
+    return {DECODER_API[k] for k in down if k in DECODER_API}
+
+
 def correspond_chunks(ck, model, module, cases, impl, label, nontrivial, describe, chunk=3000):
     """ck.correspond in chunks (each run of the extracted model has its own timeout); indices are global"""
     diffs, mo = [], []
@@ -699,6 +737,7 @@ def run(ck):
     del ORACLE_AUDIT[:]
     ck.build([MODEL, CL.MODEL])
     ck.props()
+    tie_down = translator_tie(ck)
     rnd = random.Random(ck.seed)
     g = Gen(rnd)
     thorough = ck.tier == "thorough"
@@ -738,6 +777,9 @@ def run(ck):
     empty_msgs = lambda rec: [0, 0]
     for api, gen in GENS.items():
         n = per_api if api not in ("heartbeat", "leave", "coordinator") else per_api // 2
+        if api in tie_down:      # tie (A) is down for this decoder: tie (B) carries it on an enlarged sample
+            n *= 4
+            ck.hist("cases_added_because_translator_tie_is_down_" + api, 3 * n // 4)
         for i in range(n):
             r = gen(g)
             for ver in ((VERSIONS[api][i % len(VERSIONS[api])],) if api in VERSIONS else (0,)):
@@ -1107,11 +1149,19 @@ def run(ck):
     ck.cov["error_codes_exercised"] = len(g.codes_used)
     ck.cov["error_codes_defined_all_used"] = all(c in g.codes_used for c in range(-1, 120))
 
+    # verdict of the two ties: a decoder whose tie (A) is down and whose correspondence (tie B) is not clean either
+    ndiff = sum(v["differences"] for v in ck.cov["correspondence"].values())
+    ck.cov["translator_tie"]["consequence"] = ("tie (B) carries the decoders listed under down / not_yet_covered alone: %d differences over all "
+                                               "correspondences of this run" % ndiff)
+    if tie_down and ndiff and not ck.violations:
+        ck.violation({"kind": "translator tie down and the differential correspondence is not clean", "decoders": sorted(tie_down),
+                      "differences": ndiff}, no_input=True)
     if thorough:
+        ok_gen, _ = ck.make_soft("Props/C05gen.vo")
         # other builders recompile shared .vo files while a long run is in progress: bring this property's cone up to
         # date again right before the independent checker reads it
         vlib.build_all([MODEL, CL.MODEL], targets=["Props/C05.vo"])
-        ck.coqchk(["AV.Props.C05"])
+        ck.coqchk(["AV.Props.C05"] + (["AV.Props.C05gen"] if ok_gen else []))
     ck.cov["rule"] = ("seeded generator (random.Random(VERIF_SEED)) of abstract responses for the 13 APIs + 2 embedded consumer-protocol "
                       "structures: 0..n topics/partitions/members/brokers (n up to 8; 300 partitions, 1024/1025 brokers, 32767-byte strings "
                       "once), error codes walking through -1..119 plus unknown/boundary codes, 30% boundary integers, null/empty strings "
